@@ -321,7 +321,7 @@ class _AbsRec:
         self.name, self.savings, self.p, self.n = name, savings, p, n
 
     def _mk(self, ns, std):
-        return _Transition._ctor(_ins(ns), std + self.savings)
+        return _Transition._ctor(Instant._after_max_value() if ns is None else _ins(ns), std + self.savings)
 
     def _next_or_fail(self, instant, std, prev_sav):
         return self._mk(self.n, std)
@@ -356,6 +356,31 @@ def altmap(t, dp, dn, sp, sn, std, sav):
     return (_tot(iv._raw_start) == max(dp, sp) and _tot(iv._raw_end) == min(dn, sn) and iv.name == ("D" if in_dst else "S")
             and iv.wall_offset.seconds == std + (sav if in_dst else 0) and iv.savings.seconds == (sav if in_dst else 0)
             and iv.wall_offset == iv.standard_offset + iv.savings)
+
+
+@lemma({"t": int, "dp": int, "sp": int, "std": int, "sav": int}, budget=120, per_path=30,
+       bounds="_StandardDaylightAlternatingMap.get_zone_interval at the END of the timeline: both rules' next transitions lie beyond the end "
+              "of time, their previous transitions are arbitrary distinct instants at or before the queried instant: the interval runs from "
+              "the later previous transition to the end of time and is the period of the rule that fired last (name, savings, wall offset)")
+def altmap_end_of_time(t, dp, sp, std, sav):
+    lo_, hi_ = (IMIN + 2) * NPD, (IMAX - 1) * NPD
+    for v in (t, dp, sp):
+        assume(lo_ <= v < hi_)
+    assume(dp <= t)
+    assume(sp <= t)
+    assume(dp != sp)
+    assume(-64800 <= std <= 64800)
+    assume(-64800 <= std + sav <= 64800)
+    assume(-64800 <= sav <= 64800)
+    assume(sav != 0)
+    m = object.__new__(AM)
+    m._StandardDaylightAlternatingMap__standard_offset = Offset.from_seconds(std)
+    m._StandardDaylightAlternatingMap__dst_recurrence = _AbsRec("D", Offset.from_seconds(sav), dp, None)
+    m._StandardDaylightAlternatingMap__standard_recurrence = _AbsRec("S", Offset.zero, sp, None)
+    iv = m.get_zone_interval(_ins(t))
+    in_dst = dp > sp
+    return (_tot(iv._raw_start) == max(dp, sp) and not iv.has_end and iv.name == ("D" if in_dst else "S")
+            and iv.wall_offset.seconds == std + (sav if in_dst else 0) and iv.savings.seconds == (sav if in_dst else 0))
 
 
 # ------------------------------------------------------------------------------------------------ one recurrence over an abstract yearly rule
